@@ -17,7 +17,7 @@ SPEC = {
     "rule": "random lifecycles on one real silence.Silences driven through the api/v2 HTTP handlers in-process (POST /silences, DELETE and GET "
             "/silence/{id}, GET /silences via api.Handler.ServeHTTP) and through Silences.Set/Expire/GC/Query directly, under synctest virtual "
             "time on a 500 ms grid; the next instant is drawn from the boundaries (-1,0,+1 step) of stored silences' start / end / end+retention, "
-            "sometimes repeating the same instant; creates, compatible and incompatible edits (same matchers / one component of the stored matcher sets changed - operator only, value only, name only, a matcher or a set added, dropped or moved / another catalog entry; same/shifted start "
+            "sometimes repeating the same instant; creates, compatible and incompatible edits (same matchers / one component of the stored matcher sets changed - operator only, value only, name only, a matcher or a set added, dropped or moved / another catalog entry; half of the direct edits are read-modify-write (`setq`: the proto handed to Set is the object Silences.QueryOne(QIDs(id)) returned, edited field by field); same/shifted start "
             "within and across a second, end before/at/after now), nil start/end (direct Set), unknown ids, invalid-input stream (no or empty "
             "matcher set, all matchers matching empty, bad regex, empty name, end<start, end in the past), size limit and count limit; "
             "non-trivial = hits a tagged branch (set:create/in-place/replace/invalid/notfound/limit/toobig/silently-dropped, post:400/404, "
